@@ -5,6 +5,7 @@ pub mod conc;
 pub mod cruxrt;
 pub mod dsl;
 pub mod fault;
+pub mod free;
 pub mod gen;
 pub mod l1;
 pub mod legacy;
